@@ -18,6 +18,7 @@ from typing import Any
 from . import core
 from . import decomp_switch as dsw
 from . import decomp_loops as dlp
+from . import decomp_writer as dwr
 
 MODULES = ["ESV.Props.DecompFuel", "ESV.Props.DecompFront", "ESV.Props.DecompOpt", "ESV.Props.DecompBranches", "ESV.Props.DecompGroup"]
 THEOREMS = ["ESV.DecompFront.resolve_total", "ESV.DecompFront.resolve_preserves", "ESV.DecompFront.baseGraph_preserves",
@@ -44,6 +45,8 @@ MODULES += dsw.MODULES
 THEOREMS += dsw.THEOREMS
 MODULES += dlp.MODULES
 THEOREMS += dlp.THEOREMS
+MODULES += dwr.MODULES
+THEOREMS += dwr.THEOREMS
 
 BB_EXAMPLES: list[dict] = []   # first real inputs on which build_branches alone changes behaviour (counted, see front_channels)
 
@@ -431,6 +434,7 @@ def front_channels(run: core.Run, pool: core.Pool, drv: core.Driver, sets: list[
     real: list[Any] = []
     for ch, o in zip(chunks, outs):
         real += o if isinstance(o, list) else [None] * len(ch)
+    wr_of = dwr.take(real)      # what the real writers made of the final graphs (compared by decomp_writer.writer_channels)
     # the answers of the heuristic search build_branches calls are an oracle input of the model: recorded from the real run
     model = drv.batch_parallel([dict({"op": "decomp.front", "rs": strip_ops(s["rs"])},
                                      **({"answers": a["answers"]} if isinstance(a, dict) and "answers" in a else {}),
@@ -604,6 +608,8 @@ def front_channels(run: core.Run, pool: core.Pool, drv: core.Driver, sets: list[
     mism += dsw.switch_channels(run, pool, drv, sets, real, sw_answers_of, jobs, cnt)
     # seventh to ninth rewriting phase (build_switch_fallthroughs, build_loops, remove_label_markers): harness/decomp_loops.py
     mism += dlp.loop_channels(run, pool, drv, sets, real, lp_oracle_of, jobs, cnt)
+    # the write handlers on the final graphs (statement tree of the text): harness/decomp_writer.py
+    mism += dwr.writer_channels(run, pool, drv, sets, real, wr_of, jobs, cnt)
     mism += branches_graph_tie(run, pool, drv, 400, jobs, cnt)
     mism += group_graph_tie(run, pool, drv, 300, jobs, cnt)
     # environment model: igraph incident-edge order
